@@ -2362,6 +2362,10 @@ fn foreach_next(xs: &mut State) -> Xresult {
         .range.start;
     if idx == 0 {
         let items = xs.pop_data()?;
+        if xs.is_recording() {
+            let old = xs.loops.last().unwrap().clone();
+            xs.add_reverse_step(ReverseStep::LoopNextBack(old));
+        }
         xs.loops.last_mut().unwrap().items = items;
     }
     OK
